@@ -1,0 +1,366 @@
+//! Verification hooks (built only with `--cfg minimq_verif`).
+//!
+//! Canonical text renderings of the packet decoder, the packet reader and the packet encoders, so
+//! that an external harness can compare them function by function with a formal model. Nothing in
+//! this module is used by the client itself.
+use core::fmt::Write;
+use std::string::String;
+use std::vec::Vec;
+
+use crate::{
+    Disconnect, Properties, Property, Publication, ReasonCode, TopicFilter, Will,
+    de::{PacketReader, ReceivedPacket},
+    packets::{Connect, PingReq, PubAck, PubComp, PubRec, PubRel, PublishHeader, Subscribe, Unsubscribe},
+    ser::{Error as SerError, MqttSerializer, PubError as SerPubError},
+    types::Auth,
+    wire::Utf8String,
+};
+
+fn hex(out: &mut String, bytes: &[u8]) {
+    for byte in bytes {
+        write!(out, "{:02x}", byte).unwrap();
+    }
+}
+
+/// Render one property as `<identifier>:<value>`.
+pub fn render_property(out: &mut String, property: &Property<'_>) {
+    use Property::*;
+    let id = crate::properties::PropertyIdentifier::from(property) as u32;
+    write!(out, "{}:", id).unwrap();
+    match property {
+        PayloadFormatIndicator(v)
+        | RequestProblemInformation(v)
+        | RequestResponseInformation(v)
+        | MaximumQoS(v)
+        | RetainAvailable(v)
+        | WildcardSubscriptionAvailable(v)
+        | SubscriptionIdentifierAvailable(v)
+        | SharedSubscriptionAvailable(v) => write!(out, "{}", v).unwrap(),
+        ServerKeepAlive(v) | ReceiveMaximum(v) | TopicAliasMaximum(v) | TopicAlias(v) => {
+            write!(out, "{}", v).unwrap()
+        }
+        MessageExpiryInterval(v)
+        | SubscriptionIdentifier(v)
+        | SessionExpiryInterval(v)
+        | WillDelayInterval(v)
+        | MaximumPacketSize(v) => write!(out, "{}", v).unwrap(),
+        ContentType(s)
+        | ResponseTopic(s)
+        | AssignedClientIdentifier(s)
+        | AuthenticationMethod(s)
+        | ResponseInformation(s)
+        | ServerReference(s)
+        | ReasonString(s) => {
+            out.push('x');
+            hex(out, s.as_bytes())
+        }
+        CorrelationData(b) | AuthenticationData(b) => {
+            out.push('x');
+            hex(out, b)
+        }
+        UserProperty(k, v) => {
+            out.push('x');
+            hex(out, k.as_bytes());
+            out.push('~');
+            hex(out, v.as_bytes());
+        }
+    }
+}
+
+/// Render a property collection: raw block (when encoded) and every item the lazy iterator yields.
+pub fn render_properties(out: &mut String, properties: &Properties<'_>) {
+    match properties.verif_encoded() {
+        Some(block) => {
+            out.push('x');
+            hex(out, block);
+        }
+        None => out.push('-'),
+    }
+    out.push_str(" iter=[");
+    for (i, item) in properties.iter().enumerate() {
+        if i != 0 {
+            out.push(',');
+        }
+        if i >= 4096 {
+            out.push_str("...");
+            break;
+        }
+        match item {
+            Ok(property) => render_property(out, &property),
+            Err(_) => out.push('E'),
+        }
+    }
+    out.push(']');
+}
+
+fn render_packet(out: &mut String, packet: &ReceivedPacket<'_>) {
+    match packet {
+        ReceivedPacket::ConnAck(ack) => {
+            write!(
+                out,
+                "CONNACK sp={} rc={} props=",
+                ack.session_present as u8,
+                u8::from(ack.reason_code)
+            )
+            .unwrap();
+            render_properties(out, &ack.properties);
+        }
+        ReceivedPacket::Publish(info) => {
+            out.push_str("PUBLISH topic=x");
+            hex(out, info.topic.0.as_bytes());
+            match info.packet_id {
+                Some(id) => write!(out, " pid={}", id).unwrap(),
+                None => out.push_str(" pid=-"),
+            }
+            write!(
+                out,
+                " qos={} retain={} dup={} payload=x",
+                info.qos as u8, info.retain as u8, info.dup as u8
+            )
+            .unwrap();
+            hex(out, info.payload);
+            out.push_str(" props=");
+            render_properties(out, &info.properties);
+        }
+        ReceivedPacket::PubAck(ack) => {
+            write!(out, "PUBACK pid={} rc={}", ack.packet_id, u8::from(ack.reason.code())).unwrap()
+        }
+        ReceivedPacket::PubRec(ack) => {
+            write!(out, "PUBREC pid={} rc={}", ack.packet_id, u8::from(ack.reason.code())).unwrap()
+        }
+        ReceivedPacket::PubRel(ack) => {
+            write!(out, "PUBREL pid={} rc={}", ack.packet_id, u8::from(ack.reason.code())).unwrap()
+        }
+        ReceivedPacket::PubComp(ack) => {
+            write!(out, "PUBCOMP pid={} rc={}", ack.packet_id, u8::from(ack.reason.code())).unwrap()
+        }
+        ReceivedPacket::SubAck(ack) => {
+            write!(out, "SUBACK pid={} codes=x", ack.packet_id).unwrap();
+            hex(out, ack.codes);
+            out.push_str(" props=");
+            render_properties(out, &ack._properties);
+        }
+        ReceivedPacket::UnsubAck(ack) => {
+            write!(out, "UNSUBACK pid={} codes=x", ack.packet_id).unwrap();
+            hex(out, ack.codes);
+            out.push_str(" props=");
+            render_properties(out, &ack._properties);
+        }
+        ReceivedPacket::Disconnect(disconnect) => {
+            write!(out, "DISCONNECT rc={} props=", u8::from(disconnect.reason_code())).unwrap();
+            match disconnect.properties() {
+                Some(properties) => render_properties(out, properties),
+                None => out.push_str("none"),
+            }
+        }
+        ReceivedPacket::PingResp => out.push_str("PINGRESP"),
+    }
+}
+
+/// Decode one complete packet buffer and render the result (`ERR` on any decode error).
+pub fn decode(buf: &[u8]) -> String {
+    let mut out = String::new();
+    match ReceivedPacket::from_buffer(buf) {
+        Ok(packet) => render_packet(&mut out, &packet),
+        Err(_) => out.push_str("ERR"),
+    }
+    out
+}
+
+/// Feed `input` to a `PacketReader` over `rx_len` bytes of storage, `fragments[i]` bytes at a time
+/// (clamped to the window the reader offers, 1 when exhausted), and render every window size,
+/// every packet handed off and the final reader state.
+pub fn reader_run(rx_len: usize, input: &[u8], fragments: &[usize]) -> String {
+    let mut storage = std::vec![0u8; rx_len];
+    let mut reader = PacketReader::new(&mut storage);
+    let mut out = String::new();
+    let mut offset = 0usize;
+    let mut fragment_index = 0usize;
+    loop {
+        if reader.packet_available() {
+            out.push_str("pkt ");
+            match reader.take_packet() {
+                Ok((length, packet)) => {
+                    write!(out, "{} ", length).unwrap();
+                    render_packet(&mut out, &packet);
+                }
+                Err(_) => out.push_str("ERR"),
+            }
+            out.push(';');
+            continue;
+        }
+        let window = match reader.receive_buffer() {
+            Ok(window) => window,
+            Err(_) => {
+                out.push_str("win ERR;");
+                break;
+            }
+        };
+        write!(out, "win {};", window.len()).unwrap();
+        if window.is_empty() || offset >= input.len() {
+            break;
+        }
+        let requested = fragments.get(fragment_index).copied().unwrap_or(1);
+        fragment_index += 1;
+        let count = requested.max(1).min(window.len()).min(input.len() - offset);
+        window[..count].copy_from_slice(&input[offset..offset + count]);
+        reader.commit(count);
+        offset += count;
+    }
+    let (read_bytes, packet_length) = reader.verif_progress();
+    write!(out, "end rb={} pl=", read_bytes).unwrap();
+    match packet_length {
+        Some(length) => write!(out, "{}", length).unwrap(),
+        None => out.push('-'),
+    }
+    out
+}
+
+fn render_encoded(result: Result<(usize, &[u8]), SerError>) -> String {
+    let mut out = String::new();
+    match result {
+        Ok((offset, bytes)) => {
+            write!(out, "OK off={} x", offset).unwrap();
+            hex(&mut out, bytes);
+        }
+        Err(SerError::InsufficientMemory) => out.push_str("ERR mem"),
+        Err(SerError::Custom) => out.push_str("ERR custom"),
+    }
+    out
+}
+
+/// Encode a CONNECT into a `buf_len`-byte buffer.
+#[allow(clippy::too_many_arguments)]
+pub fn encode_connect(
+    buf_len: usize,
+    keepalive: u16,
+    properties: &[Property<'_>],
+    client_id: &str,
+    auth: Option<(&str, &[u8])>,
+    will: Option<Will<'_>>,
+    clean_start: bool,
+) -> String {
+    let mut buf: Vec<u8> = std::vec![0u8; buf_len];
+    render_encoded(MqttSerializer::encode_with_offset(
+        &mut buf,
+        &Connect {
+            keepalive,
+            properties: Properties::from_slice(properties),
+            client_id: Utf8String(client_id),
+            auth: auth.map(|(user, password)| Auth::new(user, password)),
+            will,
+            clean_start,
+        },
+    ))
+}
+
+/// Encode a PUBLISH built from a public `Publication` into a `buf_len`-byte buffer.
+pub fn encode_publish(
+    buf_len: usize,
+    publication: Publication<'_, &[u8]>,
+    packet_id: Option<u16>,
+    dup: bool,
+) -> String {
+    let mut buf: Vec<u8> = std::vec![0u8; buf_len];
+    let Publication {
+        topic,
+        properties,
+        qos,
+        payload,
+        retain,
+    } = publication;
+    let header = PublishHeader {
+        topic: Utf8String(topic),
+        packet_id,
+        properties,
+        retain,
+        qos,
+        dup,
+    };
+    match MqttSerializer::encode_publish_with_offset(&mut buf, &header, payload) {
+        Ok((offset, bytes)) => render_encoded(Ok((offset, bytes))),
+        Err(SerPubError::Encode(err)) => render_encoded(Err(err)),
+        Err(SerPubError::Payload(())) => String::from("ERR payload"),
+    }
+}
+
+/// Encode a SUBSCRIBE.
+pub fn encode_subscribe(
+    buf_len: usize,
+    packet_id: u16,
+    properties: &[Property<'_>],
+    topics: &[TopicFilter<'_>],
+) -> String {
+    let mut buf: Vec<u8> = std::vec![0u8; buf_len];
+    render_encoded(MqttSerializer::encode_with_offset(
+        &mut buf,
+        &Subscribe {
+            packet_id,
+            dup: false,
+            properties: Properties::from_slice(properties),
+            topics,
+        },
+    ))
+}
+
+/// Encode an UNSUBSCRIBE.
+pub fn encode_unsubscribe(
+    buf_len: usize,
+    packet_id: u16,
+    properties: &[Property<'_>],
+    topics: &[&str],
+) -> String {
+    let mut buf: Vec<u8> = std::vec![0u8; buf_len];
+    render_encoded(MqttSerializer::encode_with_offset(
+        &mut buf,
+        &Unsubscribe {
+            packet_id,
+            dup: false,
+            properties: Properties::from_slice(properties),
+            topics,
+        },
+    ))
+}
+
+/// Encode a DISCONNECT.
+pub fn encode_disconnect(buf_len: usize, disconnect: &Disconnect<'_>) -> String {
+    let mut buf: Vec<u8> = std::vec![0u8; buf_len];
+    render_encoded(MqttSerializer::encode_with_offset(&mut buf, disconnect))
+}
+
+/// Encode PUBACK (4), PUBREC (5), PUBREL (6), PUBCOMP (7) or PINGREQ (12).
+pub fn encode_control(buf_len: usize, kind: u8, packet_id: u16, reason: u8) -> String {
+    let mut buf: Vec<u8> = std::vec![0u8; buf_len];
+    let reason = ReasonCode::from(reason);
+    match kind {
+        4 => render_encoded(MqttSerializer::encode_with_offset(
+            &mut buf,
+            &PubAck {
+                packet_id,
+                reason: reason.into(),
+            },
+        )),
+        5 => render_encoded(MqttSerializer::encode_with_offset(
+            &mut buf,
+            &PubRec {
+                packet_id,
+                reason: reason.into(),
+            },
+        )),
+        6 => render_encoded(MqttSerializer::encode_with_offset(
+            &mut buf,
+            &PubRel {
+                packet_id,
+                reason: reason.into(),
+            },
+        )),
+        7 => render_encoded(MqttSerializer::encode_with_offset(
+            &mut buf,
+            &PubComp {
+                packet_id,
+                reason: reason.into(),
+            },
+        )),
+        _ => render_encoded(MqttSerializer::encode_with_offset(&mut buf, &PingReq)),
+    }
+}
